@@ -51,21 +51,27 @@ Proof.
       unfold mget, rinit, mem. rewrite PM.gso; [rewrite PM.gempty; reflexivity|].
       intro E'. assert (Z.pos p = 128) by (rewrite E'; reflexivity). lia.
     + intros i _. apply sget_init.
-  - cbn. lia.
+  - split; [cbn; lia|unfold POP_BOUND; lia].
 Qed.
 
 (* ---------- one top-level operation ---------- *)
+Lemma RegBelow_init : forall b, RegBelow b init.
+Proof. intros b t H. unfold tidx in H. rewrite tget_init in H. lia. Qed.
+
 Theorem radix_step_refines : forall sc rs s o, Refines rs s -> HeapInv s -> batch s = [] ->
+  RegBelow POP_BOUND s -> scripts_below POP_BOUND sc -> op_below POP_BOUND o ->
   exists rs' s' rc fired,
     step sc s o = (Ok s', rc, fired) /\ rstep sc rs o = (ROk rs', rc, fired) /\
-    Refines rs' s' /\ HeapInv s' /\ batch s' = [].
+    Refines rs' s' /\ HeapInv s' /\ batch s' = [] /\ RegBelow POP_BOUND s'.
 Proof.
-  intros sc rs s o (na & H & SH & R & N) I B.
-  destruct (step_ok sc s o (HeapInv_Inv s I) B) as (s' & E & I' & B').
+  intros sc rs s o (na & H & Rf) I B RB Hsc Ho.
+  pose proof (HeapInv_Inv s I) as Iv.
+  destruct (step_ok sc s o Iv B) as (s' & E & I' & B').
   destruct (step sc s o) as [[r rc] fired] eqn:Es. cbn [fst] in E. subst r.
-  destruct (rstep_sim sc rs s na H o s' rc fired (conj SH (conj R N)) Es) as (rs' & na' & H' & E' & SH' & R' & N').
+  destruct (rstep_sim sc rs s na H o s' rc fired Rf Iv B RB Hsc Ho Es) as (rs' & na' & H' & E' & Rf').
   exists rs', s', rc, fired. split; [reflexivity|]. split; [exact E'|].
-  split; [exists na', H'; auto|]. split; [apply Inv_HeapInv; assumption|assumption].
+  split; [exists na', H'; exact Rf'|]. split; [apply Inv_HeapInv; assumption|].
+  split; [assumption|]. apply (step_below sc s o s' rc fired Iv B RB Hsc Ho Es).
 Qed.
 
 (* ---------- the observers ---------- *)
@@ -105,7 +111,7 @@ Proof.
   rewrite (sh_root _ _ _ S).
   assert (E0 : i / P (rdepth rs + 1) = 0) by (apply Z.div_small; lia).
   rewrite <- E0.
-  rewrite (peek_walk_path (Z.to_nat (rdepth rs)) rs na (domH H) (rdepth rs) i S ltac:(lia) (to_nat_fuel _ Dp)).
+  rewrite (peek_walk_path (Z.to_nat (rdepth rs)) rs na (domH H) (rdepth rs) i S ltac:(lia) (to_nat_fuel _ (proj1 Dp))).
   - rewrite land_mod. change (na 0 (i / P (0 + 1)) * NODES + i mod NODES) with (p_of na i).
     rewrite (r_cells _ _ _ _ R i ltac:(lia) (leaf_le i H ltac:(lia))).
     destruct (sget s i); reflexivity.
@@ -169,57 +175,70 @@ Proof.
 Qed.
 
 (* ---------- (c) every history: the radix store and the flat store produce the same trace ---------- *)
-Lemma trace_refines : forall sc ops rs s, Refines rs s -> HeapInv s -> batch s = [] ->
+Lemma ops_below_cons : forall b o ops, ops_below b (o :: ops) -> op_below b o /\ ops_below b ops.
+Proof.
+  intros b o ops Hb. split; [apply (Hb o); left; reflexivity|]. intros x Hx. apply Hb. right. assumption.
+Qed.
+
+Lemma trace_refines : forall sc, scripts_below POP_BOUND sc ->
+  forall ops rs s, ops_below POP_BOUND ops -> Refines rs s -> HeapInv s -> batch s = [] -> RegBelow POP_BOUND s ->
   rtrace sc ops rs = htrace sc ops s /\ length (htrace sc ops s) = length ops.
 Proof.
-  intros sc. induction ops as [|o ops IH]; intros rs s Rf I B; [split; reflexivity|].
-  destruct (radix_step_refines sc rs s o Rf I B) as (rs' & s' & rc & fired & Es & Er & Rf' & I' & B').
+  intros sc Hsc. induction ops as [|o ops IH]; intros rs s Hops Rf I B RB; [split; reflexivity|].
+  destruct (ops_below_cons _ _ _ Hops) as [Ho Hops'].
+  destruct (radix_step_refines sc rs s o Rf I B RB Hsc Ho) as (rs' & s' & rc & fired & Es & Er & Rf' & I' & B' & RB').
   cbn [rtrace htrace]. rewrite Es, Er.
-  destruct (IH rs' s' Rf' I' B') as [T L]. cbn [length]. rewrite T, L.
-  destruct Rf' as (na' & H' & SH' & R' & N').
-  rewrite (Ref_obs rs' s' na' H' (conj SH' (conj R' N'))). split; reflexivity.
+  destruct (IH rs' s' Hops' Rf' I' B' RB') as [T L]. cbn [length]. rewrite T, L.
+  destruct Rf' as (na' & H' & Rf').
+  rewrite (Ref_obs rs' s' na' H' Rf'). split; reflexivity.
 Qed.
 
 Lemma Refines_init : Refines rinit init.
 Proof. exists na0, 0. exact Ref_init. Qed.
 
-Theorem radix_refines_heap : forall sc ops,
+(* for every history in which all timer ids are below POP_BOUND = 2^30 (hence every population is) *)
+Theorem radix_refines_heap : forall sc ops, scripts_below POP_BOUND sc -> ops_below POP_BOUND ops ->
   rtrace sc ops rinit = htrace sc ops init /\ length (htrace sc ops init) = length ops /\
   exists rs s, rrun_ops sc ops rinit = ROk rs /\ run_ops sc ops init = Ok s /\
                Refines rs s /\ HeapInv s /\ batch s = [] /\
                (forall p, PM.find p (flat_of rs) = PM.find p (slots s)) /\ tm (hs rs) = tm s.
 Proof.
-  intros sc ops.
-  destruct (trace_refines sc ops rinit init Refines_init (Inv_HeapInv _ Inv_init) eq_refl) as [T L].
+  intros sc ops Hsc Hops.
+  destruct (trace_refines sc Hsc ops rinit init Hops Refines_init (Inv_HeapInv _ Inv_init) eq_refl
+              (RegBelow_init POP_BOUND)) as [T L].
   split; [exact T|]. split; [exact L|].
-  assert (G : forall ops rs s, Refines rs s -> HeapInv s -> batch s = [] ->
+  assert (G : forall ops rs s, ops_below POP_BOUND ops -> Refines rs s -> HeapInv s -> batch s = [] ->
+            RegBelow POP_BOUND s ->
             exists rs' s', rrun_ops sc ops rs = ROk rs' /\ run_ops sc ops s = Ok s' /\
                            Refines rs' s' /\ HeapInv s' /\ batch s' = []).
-  { clear. induction ops as [|o ops IH]; intros rs s Rf I B.
+  { clear ops Hops T L. induction ops as [|o ops IH]; intros rs s Hops Rf I B RB.
     - exists rs, s. auto.
-    - destruct (radix_step_refines sc rs s o Rf I B) as (rs' & s' & rc & fired & Es & Er & Rf' & I' & B').
-      destruct (IH rs' s' Rf' I' B') as (rs2 & s2 & E1 & E2 & K).
+    - destruct (ops_below_cons _ _ _ Hops) as [Ho Hops'].
+      destruct (radix_step_refines sc rs s o Rf I B RB Hsc Ho) as (rs' & s' & rc & fired & Es & Er & Rf' & I' & B' & RB').
+      destruct (IH rs' s' Hops' Rf' I' B' RB') as (rs2 & s2 & E1 & E2 & K).
       exists rs2, s2. unfold rrun_ops, run_ops in *. cbn [fold_left]. rewrite Es, Er. cbn [fst]. auto. }
-  destruct (G ops rinit init Refines_init (Inv_HeapInv _ Inv_init) eq_refl) as (rs & s & E1 & E2 & Rf & I & B).
+  destruct (G ops rinit init Hops Refines_init (Inv_HeapInv _ Inv_init) eq_refl (RegBelow_init POP_BOUND))
+    as (rs & s & E1 & E2 & Rf & I & B).
   exists rs, s. split; [assumption|]. split; [assumption|]. split; [assumption|]. split; [assumption|].
-  split; [assumption|]. destruct Rf as (na & H & SH & R & N). split.
-  - apply (flat_of_slots rs s na H (conj SH (conj R N))).
+  split; [assumption|]. destruct Rf as (na & H & Rf). split.
+  - apply (flat_of_slots rs s na H Rf).
     pose proof (i_vacant s (HeapInv_Inv s I)) as V. exact V.
-  - symmetry. apply (Rel_fields _ _ _ _ R).
+  - symmetry. destruct Rf as (_ & R & _). apply (Rel_fields _ _ _ _ R).
 Qed.
 
 (* ---------- (b) the invariant ---------- *)
 Lemma Refines_RInv : forall rs s, Refines rs s -> HeapInv s -> RInv rs.
 Proof.
-  intros rs s (na & H & SH & R & N) I. apply HeapInv_Inv in I.
+  intros rs s (na & H & SH & R & N & HB) I. apply HeapInv_Inv in I.
   destruct (Rel_fields _ _ _ _ R) as (En & Ed & _).
   destruct (i_depth s I) as (D1 & D2 & D3). pose proof (i_num s I) as N0.
-  exists na, H. split; [assumption|]. rewrite <- En, <- Ed. split; [lia|exact D3].
+  exists na, H. split; [assumption|]. rewrite <- En, <- Ed. split; [lia|]. split; [assumption|exact D3].
 Qed.
 
-Theorem radix_invariant : forall sc ops, exists rs, rrun_ops sc ops rinit = ROk rs /\ RInv rs.
+Theorem radix_invariant : forall sc ops, scripts_below POP_BOUND sc -> ops_below POP_BOUND ops ->
+  exists rs, rrun_ops sc ops rinit = ROk rs /\ RInv rs.
 Proof.
-  intros sc ops. destruct (radix_refines_heap sc ops) as (_ & _ & rs & s & E & _ & Rf & I & _).
+  intros sc ops Hsc Hops. destruct (radix_refines_heap sc ops Hsc Hops) as (_ & _ & rs & s & E & _ & Rf & I & _).
   exists rs. split; [assumption|]. apply (Refines_RInv rs s); assumption.
 Qed.
 
@@ -230,7 +249,7 @@ Proof.
   intros rs na H (S & B1 & B2). pose proof (sh_depth _ _ _ S) as Dp.
   induction k as [|k IH]; intros l q El Hl Dq.
   - assert (E : l = rdepth rs) by lia. clear El. subst l.
-    rewrite (domH_top H (rdepth rs) q Dp ltac:(lia) Dq). apply reach_root. apply (sh_root _ _ _ S).
+    rewrite (domH_top H (rdepth rs) q (proj1 Dp) ltac:(lia) Dq). apply reach_root. apply (sh_root _ _ _ S).
   - assert (Dpar : domH H (l + 1) (q / NODES) = true).
     { apply domH_closed; [lia|]. replace (l + 1 - 1) with l by lia. assumption. }
     pose proof (IH (l + 1) (q / NODES) ltac:(lia) ltac:(lia) Dpar) as Rp.
@@ -275,28 +294,29 @@ Proof.
   exists rs', s'. split; [assumption|]. split; [assumption|]. split; [exists na, H'; exact Rf'|assumption].
 Qed.
 
-Theorem radix_no_error : forall sc ops e, rrun_ops sc ops rinit <> RCrash e.
+Theorem radix_no_error : forall sc ops e, scripts_below POP_BOUND sc -> ops_below POP_BOUND ops ->
+  rrun_ops sc ops rinit <> RCrash e.
 Proof.
-  intros sc ops e. destruct (radix_invariant sc ops) as (rs & E & _). rewrite E. discriminate.
+  intros sc ops e Hsc Hops. destruct (radix_invariant sc ops Hsc Hops) as (rs & E & _). rewrite E. discriminate.
 Qed.
 
 (* ---------- (e) no leak; deinit ---------- *)
 Lemma RInv_empty : forall rs, RInv rs -> rnum rs = 0 -> rdepth rs = 0 /\ all_freed rs.
 Proof.
-  intros rs (na & H & SH & N & Dm) E0. pose proof (sh_depth _ _ _ (proj1 SH)) as Dp.
+  intros rs (na & H & SH & N & HB & Dm) E0. pose proof (sh_depth _ _ _ (proj1 SH)) as Dp.
   assert (D0 : rdepth rs = 0).
   { destruct (Z.eq_dec (rdepth rs) 0); [assumption|].
-    pose proof (P_pos (rdepth rs) Dp). specialize (Dm ltac:(lia)). lia. }
+    pose proof (P_pos (rdepth rs) (proj1 Dp)). specialize (Dm ltac:(lia)). lia. }
   split; [assumption|]. apply (shape_depth0_all_freed rs na H SH D0).
 Qed.
 
-Theorem radix_no_leak : forall sc ops, exists rs,
+Theorem radix_no_leak : forall sc ops, scripts_below POP_BOUND sc -> ops_below POP_BOUND ops -> exists rs,
   rrun_ops sc ops rinit = ROk rs /\ RInv rs /\
   (forall n, live_true rs n <-> n <> FIRST_LEAF /\ exists l, reach rs l n) /\
   (rnum rs = 0 -> rdepth rs = 0 /\ all_freed rs) /\
   exists rs', rdeinit rs = Good rs' /\ rdepth rs' = 0 /\ all_freed rs' /\ mget (mem rs') ROOT_CELL = CNull.
 Proof.
-  intros sc ops. destruct (radix_invariant sc ops) as (rs & E & I). exists rs.
+  intros sc ops Hsc Hops. destruct (radix_invariant sc ops Hsc Hops) as (rs & E & I). exists rs.
   split; [assumption|]. split; [assumption|]. split; [apply reach_iff_live; assumption|].
   split; [apply RInv_empty; assumption|].
   destruct I as (na & H & SH & _).
@@ -304,27 +324,33 @@ Proof.
   exists rs'. auto.
 Qed.
 
-(* ---------- the shift in iv_timer_get_node ---------- *)
-Lemma radix_shift_defined : forall rs, RInv rs -> rnum rs < 2 ^ 28 -> shift_count rs <= 28.
+(* ---------- int arithmetic ---------- *)
+(* the tree never has more than five levels (the guard of the growth test) *)
+Lemma radix_depth_le_4 : forall rs, RInv rs -> 0 <= rdepth rs <= 4.
+Proof. intros rs (na & H & (S & _) & _). apply (sh_depth _ _ _ S). Qed.
+
+(* the guarded growth test never executes an undefined shift, whatever the depth and the index *)
+Lemma grow_test_defined : forall d index, 0 <= d -> exists b, grow_test d index = Good b.
 Proof.
-  intros rs (na & H & SH & N & Dm) B. pose proof (sh_depth _ _ _ (proj1 SH)) as Dp.
-  unfold shift_count, SPLIT_BITS.
-  destruct (Z_le_gt_dec (rdepth rs) 3); [lia|].
-  pose proof (P_le 4 (rdepth rs) ltac:(lia)). specialize (Dm ltac:(lia)).
-  change (P 4) with (2 ^ 28) in *. lia.
+  intros d index Hd. unfold grow_test. change (8 * 4) with 32.
+  destruct (Z.ltb_spec ((d + 1) * SPLIT_BITS) 32) as [L|L]; [|eexists; reflexivity].
+  rewrite shr_int_ok by (unfold SPLIT_BITS in *; lia). eexists; reflexivity.
 Qed.
 
-(* ... but it is not defined for every int population: with num_timers = 2^28 (< INT_MAX) the invariant
-   forces rat_depth = 4 and the shift count is 35 >= 32 *)
-Lemma radix_shift_undefined_witness :
-  exists d n, 0 < d /\ P d <= n < P (d + 1) /\ n < 2 ^ 31 /\ 32 <= (d + 1) * SPLIT_BITS.
-Proof. exists 4, (2 ^ 28). vm_compute. repeat split; intro; discriminate. Qed.
+(* what remains of the int range: push_down computes 2 * index, so an index >= 2^30 overflows *)
+Lemma push_down_overflow_refuted : forall f rs index i, POP_BOUND <= index ->
+  rpush_down (S f) rs index i = Bad EOverflow.
+Proof.
+  intros f rs index i H. rewrite rpush_down_eq. unfold chk_int.
+  replace (2 * index <=? INT_MAX) with false by (symmetry; apply Z.leb_gt; unfold POP_BOUND, INT_MAX in *; lia).
+  reflexivity.
+Qed.
 
 (* the depth part of the monitor radix_mon holds in every reachable state of the model (the node
    counts L = A - X + 1 are compared with the implementation by the correspondence stage only) *)
 Lemma radix_depth_mon_ok : forall rs, RInv rs -> depth_mon (rnum rs) (rdepth rs) = true.
 Proof.
-  intros rs (na & H & (S & B1 & B2) & N & Dm). pose proof (sh_depth _ _ _ S) as Dp.
+  intros rs (na & H & (S & B1 & B2) & N & HB & Dm). pose proof (sh_depth _ _ _ S) as Dp.
   unfold depth_mon. rewrite cap_P.
   replace (0 <=? rdepth rs) with true by (symmetry; apply Z.leb_le; lia).
   replace (0 <=? rnum rs) with true by (symmetry; apply Z.leb_le; lia).
